@@ -129,6 +129,8 @@ UNIT = {
         {"kind": "enum", "file": L, "name": "TokenData"},
         {"kind": "struct", "file": L, "name": "Lexer", "attrs": "#[verifier::reject_recursive_types(CharIter)]"},
         {"kind": "fn", "file": L, "name": "is_identifier_initial", "contract": ""},
+        # rule P1: further single-expression helper predicates on characters, should the file define any
+        {"kind": "auto_pure_fns", "file": L, "spec_names": {}},
         {"kind": "impl", "file": L, "impl": r"^impl<CharIter: Iterator<Item = char>> Lexer<CharIter>$",
          "methods": {
              "from_char_stream": {"props": ["C15"],
